@@ -889,6 +889,18 @@ func (q *checker) bcheckVar(n *a.Var) error {
 	if _, err := q.bcheckTypeExpr(n.XType()); err != nil {
 		return err
 	}
+	// Arrays are zero-initialized too: each element's refinement (if any)
+	// must admit the zero value.
+	if inner := n.XType().Innermost(); (inner != n.XType()) && inner.IsNumType() {
+		ib, err := q.bcheckTypeExpr(inner)
+		if err != nil {
+			return err
+		}
+		if (zero.Cmp(ib[0]) < 0) || (zero.Cmp(ib[1]) > 0) {
+			return fmt.Errorf("check: default zero value is not within bounds %v for var %q",
+				ib, n.Name().Str(q.tm))
+		}
+	}
 
 	lhs := a.NewExpr(0, 0, n.Name(), nil, nil, nil, nil)
 	lhs.SetMType(n.XType())
